@@ -11,7 +11,7 @@ CMAKE_NAMES = ["a.cmake", "b.cmake", "zeta.cmake", "d.e.cmake", "x-y.cmake", "Mo
                "ax.cmake", "bx.cmake", "Zeta.cmake", "w.cmake.cmake", "c.cmake-3.cmake", "in.util.cmake", "pfx.core.cmake", "tool.cmake", ".impl.cmake", "_private.cmake", "x.cmake", "d.cmake",
                "cafe\u0301.cmake", "g++ (2).cmake", "a+b.cmake", "x$y^z.cmake", "v1,v2.cmake", "v2.cmake", "L" * 248 + ".cmake"]   # the last: at the name length limit
 MIXED_NAMES = ["up.CMAKE", "Mix.CMake", "w.Cmake"]
-OTHER_NAMES = ["README", "x.txt", "CMakeLists.txt", "x.cmake.in", "cmake", "notcmake", "z.cmake.bak", "acmake", "data.json",
+OTHER_NAMES = ["README", "stray.cmake\n", "x.txt", "CMakeLists.txt", "x.cmake.in", "cmake", "notcmake", "z.cmake.bak", "acmake", "data.json",
                "cmake.txt"]
 DIR_NAMES = ["sub", "a.b", "x-y", "cmake", "Dir2", "docs", "pre_dir", "ax", "deep", "d1", "d2", "tool.cmake", "pfx", "Sub", ".detail", "in", "..legacy",
              "mode\u0301les", "g++ (2)", "c++", "a{1}b", "a,b", "b"]
